@@ -4,7 +4,8 @@ import gen as G
 import conv
 from props.C01 import nfa_lit
 
-COQ_IMPORTS = ['Model.DFA', 'Model.NFA', 'Model.PDA', 'Model.CFG', 'Model.Simulate', 'Judge.C15_judge']
+COQ_IMPORTS = ['Model.DFA', 'Model.NFA', 'Model.PDA', 'Model.CFG', 'Model.Simulate', 'Model.Simulate2', 'Judge.Common', 'Judge.C15_judge', 'Judge.Extra_judge']
+EXTRA_JUDGES = ['Extra']
 RULE = ('DFAs (all 2x2, random <= 6 states) x all words <= 3 + random words: dfa_simulate_word; epsilon-NFAs (all 2-state 1-symbol, random <= 6 states with epsilon self-loops and cycles) x all words <= 3: nfa_simulate_word; '
         'random PDAs without pushing epsilon moves x words <= 3: pda_simulate_word; random CNF grammars x all non-empty words <= 4 x {leftmost, rightmost, any}: cfg_derive_word; '
         'under 4 (quick) / 16 (thorough) PYTHONHASHSEED values with a 3 s limit per call (a hang is a violation). Relation: the verified witness checker accepts the returned run / derivation, nothing is returned for rejected words, '
@@ -112,7 +113,9 @@ def encode(c, o):
             r = o['runs'][i]
             i += 1
             items.append(L.pair(L.nats(nm(conv.sym(a)) for a in w), L.nat(mode), L.option(r, lambda steps: L.lst(L.lst(L.csym(s, nm) for s in step) for step in steps))))
-    return 'judge_C15_cfg %s %s' % (L.cfg(x, nm), L.lst(items))
+    # second term per item: the derivation equals the one computed by the model of cfg_derive_word (Model/Simulate2.v); informational
+    return ('(let G0 := %s in let items := %s in worst_code (judge_C15_cfg G0 items :: map (fun it => judge_derive_model G0 (fst (fst it)) (snd (fst it)) (snd it)) items))'
+            % (L.cfg(x, nm), L.lst(items)))
 
 
 def explain(c):
